@@ -220,13 +220,15 @@ def generate(rng, tier):
                         "src": rng.choice(["float", "float", "dn", "dn", "bool"])})
         else:
             ops.append({"op": "bayer", "cfa": rng.choice(["rggb", "bggr"]), "as_int": rng.random() < 0.5,
-                        "signed": rng.random() < 0.25})
+                        "signed": rng.random() < 0.25,
+                        "spelling": rng.choice(["lower", "lower", "lower", "upper", "title"])})
     if big:
         ops = [{"op": "expose"}, {"op": "again"}]          # the burst itself is the point; no per-block Python loops
         if rng.random() < 0.7:
             mode = "off"                                    # every sample of every frame is then decided exactly
     return {"prop": PROP, "tier": tier, "config": {"mode": mode, "rng_seed": rng.getrandbits(48),
-                                                    "reuse_detector": rng.random() < 0.6},
+                                                    "reuse_detector": rng.random() < 0.6,
+                                                    "precision0": 64 if rng.random() < 0.85 else 32},
             "det": det, "img": img, "ops": ops}
 
 
@@ -285,6 +287,9 @@ def execute(plan):
     np.seterr(all="ignore")
     cfg = plan["config"]
     mode = cfg["mode"]
+    from prysm.conf import config as _pcfg
+    _pcfg.precision = cfg.get("precision0", 64)
+    lowp = cfg.get("precision0", 64) == 32      # the library-wide single-precision setting is in force
     sim = SimRandom(np, mode, cfg["rng_seed"])
     mathops.np._srcmodule = BackendProxy(np, random=sim)
 
@@ -416,7 +421,7 @@ def execute(plan):
             fw = np.broadcast_to(low > d["fwc"] * (1 + 1e-6) + 1.0, dn.shape)
             if bool(np.any(fw)):
                 lvl = d["fwc"] / d["gain"]
-                if image.dtype == np.float32 or not (abs(lvl) < 2 ** 52):
+                if image.dtype == np.float32 or lowp or not (abs(lvl) < 2 ** 52):
                     pass
                 else:
                     want_lo, want_hi = min(math.floor(lvl * (1 - 1e-12)), S.cap), min(math.ceil(lvl * (1 + 1e-12)), S.cap)
@@ -432,9 +437,10 @@ def execute(plan):
             c = np.broadcast_to(c, dn.shape)
             dnf = dn.astype(np.float64)
             err = np.abs(dnf - c)
-            f32 = image.dtype == np.float32
+            f32 = image.dtype == np.float32 or lowp
             tol = 1.0 + (4e-7 if f32 else 1e-9) * np.maximum(1.0, np.abs(c))
-            if plan["img"]["exact"] and not (f32 and float(np.abs(image).max()) >= 2 ** 24):
+            if plan["img"]["exact"] and not (f32 and float(np.abs(image).max()) >= 2 ** 24) and not (
+                    lowp and float(np.abs(c).max()) >= 2 ** 24):
                 # every operation is exact in binary floating point: floor or round, nothing else
                 okx = (dnf == np.floor(c)) | (dnf == np.rint(c))
                 if not bool(np.all(okx)):
@@ -637,7 +643,9 @@ def execute(plan):
             if (mos.shape[0] + mos.shape[1]) % 3 == 0:
                 mos = np.asfortranarray(mos)
                 bump(probes, "bayer_fortran_input")
-            _bayer(np, B, mos, op["cfa"], viol, bump, probes)
+            sp = op.get("spelling", "lower")
+            name = op["cfa"].upper() if sp == "upper" else (op["cfa"].title() if sp == "title" else op["cfa"])
+            _bayer(np, B, mos, op["cfa"], viol, bump, probes, name)
             ev["out"] = "ok"
         else:
             raise RuntimeError(f"unknown op {k}")
@@ -739,8 +747,36 @@ def _site(a, rc):
     return a[rc[0]::2, rc[1]::2]
 
 
-def _bayer(np, B, mos, cfa, viol, bump, probes):
+def _bayer(np, B, mos, cfa, viol, bump, probes, name=None):
     S = _SITES[cfa]
+    name = name or cfa
+    if name != cfa:
+        # the layout spelled with capitals: each routine may reject it cleanly, but what it returns must be right
+        bump(probes, "bayer_layout_spelled_with_capitals")
+        try:
+            r, g1, g2, b = B.decomposite_bayer(mos, name)
+            for nm, pl in (("r", r), ("g1", g1), ("g2", g2), ("b", b)):
+                if not np.array_equal(np.asarray(pl), _site(mos, S[nm])):
+                    viol("bayer-native-sites", "decomposite", plane=nm, cfa=name)
+        except Exception:
+            pass
+        try:
+            de = np.asarray(B.demosaic_deinterlace(mos, name))
+            if de.shape == (mos.shape[0] // 2, mos.shape[1] // 2, 3):
+                if not np.array_equal(de[..., 0], _site(mos, S["r"]).astype(de.dtype)) or not np.array_equal(
+                        de[..., 2], _site(mos, S["b"]).astype(de.dtype)):
+                    viol("bayer-native-sites", "deinterlace", cfa=name)
+        except Exception:
+            pass
+        try:
+            mfx = mos.astype(np.float64)
+            ml = np.asarray(B.demosaic_malvar(mfx.copy(), name))
+            for ch, names in ((0, ("r",)), (1, ("g1", "g2")), (2, ("b",))):
+                for nm in names:
+                    if not np.array_equal(_site(ml[..., ch], S[nm]), _site(mfx, S[nm])):
+                        viol("bayer-native-sites", "malvar", plane=nm, cfa=name)
+        except Exception:
+            pass
     try:
         r, g1, g2, b = B.decomposite_bayer(mos, cfa)
         for nm, pl in (("r", r), ("g1", g1), ("g2", g2), ("b", b)):
